@@ -11,6 +11,7 @@ require (
 	example.com/b/foo v0.0.0
 	example.com/c20/lib v0.0.0
 	example.com/c20bundle v0.0.0
+	gopkg.in/yaml.v3 v3.0.0
 	example.com/chk v0.0.0
 	example.com/c19b v0.0.0
 	example.com/c03b v0.0.0
@@ -48,6 +49,9 @@ replace example.com/c20/lib => ./fake/c20lib
 
 // rule bundle whose groups have Import() sets of their own (C20)
 replace example.com/c20bundle => ./fake/c20bundle
+
+// a package whose import path has a dot in its last element (C20: fully-qualified names are split at their last dot)
+replace gopkg.in/yaml.v3 => ./fake/c20yaml
 
 // third-party package for the C05 generated rules files
 replace example.com/chk => ./fake/c05chk
